@@ -166,7 +166,7 @@ def stepTokens (st : St) : List String → Option (St × String)
   | ["npoolrm", sid] => do
     -- the pool drops the stream; `onStreamClose` has not run yet (it is waiting for `remoteMu`)
     let sid ← sid.toNat?
-    pure (withNode st { st.node with pool := st.node.pool.filter (·.sid ≠ sid) } {})
+    pure (withNode st (st.node.poolRemove sid) {})
   | ["nkill", sid] => do
     let sid ← sid.toNat?
     pure (withNode st (st.node.closeStream sid) {})
